@@ -28,7 +28,11 @@ META = dict(
          "HostKeys.keys(), every SubDict.keys() and the saved text must not change). The same judgements are "
          "applied inside random histories of add / load / save+reload / delete / sub-dict assignment. "
          "Holds on the executions produced.",
-    note="Only exact and hashed name listing is modelled (no wildcards, markers or negation: HostKeys does not "
+    note="Deletion scenarios model del/pop as 'the first entry that lists the host disappears as a whole' (what "
+         "HostKeys.__delitem__ does; the statement names delete sequences but not their semantics) and judge "
+         "lookup / in / check / keys / save+reload against that model, by position of that entry (entry #0, middle, "
+         "last), by name form (plain, plain name of a hashed entry, hashed literal) and for hosts listed on several "
+         "entries. Only exact and hashed name listing is modelled (no wildcards, markers or negation: HostKeys does not "
          "implement them and the property does not mention them). The post-state of add()/del is not judged, "
          "only that lookup, save and reload agree afterwards. Key blobs are built with struct.",
     rule="case = one generated file scenario or one operation history; distinct = the file text / the history; "
@@ -39,6 +43,9 @@ META = dict(
 
 def shards(tier):
     return 4 if tier == "quick" else 16
+
+SKIP = [0]  # shard s leaves out the samples of its first SKIP strata, so that evidence shows every stratum
+
 
 
 # generous per-shard caps: expiry means INCONCLUSIVE, never a verdict (the box is shared and can be 10x slow)
@@ -154,7 +161,8 @@ def gen_file(rng, pool, hosts=None):
     hashed_literals = []
     multi = 0
     conflicts = 0
-    info = dict(ghosts=[], indented_comment=0, commented_entry=0, comments=0, blanks=0, crlf=False)
+    info = dict(ghosts=[], indented_comment=0, commented_entry=0, comments=0, blanks=0, crlf=False, trailing=0,
+                trailing_1=0, trailing_2=0, trailing_3plus=0)
     for _ in range(rng.randint(1, 12)):
         r = rng.random()
         if r < 0.22:
@@ -182,8 +190,13 @@ def gen_file(rng, pool, hosts=None):
             multi += 1
         sep = rng.choice([" ", " ", "\t"])
         line = sep.join([",".join(names), k.kt, k.b64])
-        if rng.random() < 0.2:
-            line += sep + rng.choice(["root@host", "comment with spaces", "#x"])
+        if rng.random() < 0.3:
+            # trailing fields after the key: 1, 2, 3+ extra fields, separated by spaces and/or tabs
+            extra = rng.choice([["root@host"], ["#x"], ["comment", "two"], ["comment", "with", "spaces"],
+                                ["a", "b", "c", "d", "e", "f"], ["ssh-rsa", "AAAA"], [k.kt, k.b64], ["2024-01-01", "added", "by", "ops"]])
+            line += "".join(rng.choice([" ", "\t"]) + w for w in extra)
+            info["trailing"] += 1
+            info["trailing_%s" % ("1" if len(extra) == 1 else "2" if len(extra) == 2 else "3plus")] += 1
         if rng.random() < 0.1:
             line = rng.choice([" ", "\t", "  "]) + line + rng.choice(["", " ", "\t"])
         lines.append(line)
@@ -444,8 +457,12 @@ def file_scenario(ctx, rng, pool, d, i):
         if info[flag]:
             ctx.count(name)
     ctx.count("comment_lines_generated", info["comments"])
+    ctx.count("entry_lines_with_trailing_fields", info["trailing"])
+    ctx.count("entry_lines_with_1_trailing_field", info["trailing_1"])
+    ctx.count("entry_lines_with_2_trailing_fields", info["trailing_2"])
+    ctx.count("entry_lines_with_3_or_more_trailing_fields", info["trailing_3plus"])
     ctx.case(("file", text), nontrivial=bool(entries),
-             sample=dict(kind="file scenario", file=text, probes=probes) if i < 1 else None)
+             sample=dict(kind="file scenario", file=text, probes=probes) if i < 1 and SKIP[0] <= 0 else None)
     if multi:
         ctx.count("files_with_multi_host_lines")
     if conflicts:
@@ -469,6 +486,99 @@ def file_scenario(ctx, rng, pool, d, i):
             ctx.violation("host list differs after save and reload",
                           "only before: %r, only after: %r" % (sorted(a - b)[:4], sorted(b - a)[:4]), wit)
     reload_twice(ctx, hk, f1, probes, f3, "file loaded twice", wit)
+
+
+def delete_scenario(ctx, rng, pool, d, i):
+    """Deletion by position: del hk[h] / hk.pop(h) where h's first matching entry is entry #0, a middle entry or the
+    last one; by plain name (listed plain or only hashed) or by the hashed literal. Model: the first entry that lists
+    h disappears as a whole. Afterwards lookup / in / check / keys() and save+reload must agree with the model."""
+    text, hosts, hashed, info = gen_file(rng, pool)
+    f1, f2 = os.path.join(d, "del"), os.path.join(d, "del.saved")
+    write(f1, text)
+    try:
+        hk = HostKeys(f1)
+        model = ref_parse(saved_text(hk, f2))  # the store as it is, entry by entry
+    except Exception as e:
+        ctx.violation("exception from load: " + exc_signature(e), repr(e)[:200], dict(file=text))
+        return
+    ops = []
+    probes = list(dict.fromkeys(hosts + rng.sample(UNLISTED, 2) + hashed[:3]))
+    for step in range(rng.randint(1, 3)):
+        if not model:
+            break
+        # candidates: (name to delete by, index of its first matching entry, form)
+        cands = []
+        for h in probes:
+            idx = next((j for j, (names, _, _) in enumerate(model) if any(name_lists(n, h) for n in names)), None)
+            if idx is None:
+                continue
+            names = model[idx][0]
+            form = "hashed literal" if h.startswith("|1|") else "plain name" if h in names else "plain name of a hashed entry"
+            cands.append((h, idx, form))
+        if not cands:
+            break
+        want_pos = rng.choice(["first", "middle", "last"])
+
+        def pos_of(idx):
+            return "first" if idx == 0 else "last" if idx == len(model) - 1 else "middle"
+
+        pool_c = [c for c in cands if pos_of(c[1]) == want_pos] or cands
+        want_form = rng.choice(["plain name", "plain name of a hashed entry", "hashed literal"])
+        pool_c = [c for c in pool_c if c[2] == want_form] or pool_c
+        h, idx, form = rng.choice(pool_c)
+        position = "entry #0" if idx == 0 else "the last entry" if idx == len(model) - 1 else "a middle entry"
+        if idx == 0 and len(model) == 1:
+            position = "entry #0"
+        several = sum(1 for names, _, _ in model if any(name_lists(n, h) for n in names)) > 1
+        how = rng.choice(["del", "del", "del", "pop", "pop-default"])
+        ops.append([how, h, position, form])
+        wit = dict(file=text, ops=list(ops))
+        try:
+            if how == "del":
+                del hk[h]
+            elif how == "pop":
+                hk.pop(h)
+            else:
+                hk.pop(h, None)
+        except KeyError:
+            ctx.violation("deleting a listed host raised KeyError (its first matching entry is %s)" % position,
+                          "%s of %r (%s)" % (how, h, form), wit)
+            return
+        except Exception as e:
+            ctx.violation("exception from delete: " + exc_signature(e), repr(e)[:200], wit)
+            return
+        del model[idx]
+        ctx.count("deletes_judged")
+        ctx.count("deletes_where_first_match_is_" + position.replace(" ", "_").replace("#", ""))
+        ctx.count("deletes_by_" + form.replace(" ", "_"))
+        if several:
+            ctx.count("deletes_of_a_host_listed_on_several_entries")
+        where = "after delete"  # position and name form are in the witness (ops), not in the signature
+        ok = compare_with_reference(ctx, hk, model, probes, pool, rng, where, wit)
+        compare_host_list(ctx, hk, model, [], where, wit)
+        for p in probes:
+            ctx.count("membership_tests_compared")
+            try:
+                inside = p in hk
+            except Exception as e:
+                ctx.violation("%s: exception from 'in': %s" % (where, exc_signature(e)), repr(e)[:200], wit)
+                return
+            if inside != (ref_lookup(model, p) is not None):
+                ctx.violation("%s: 'host in hostkeys' disagrees with the entries that remain" % where,
+                              "%r in hk is %s" % (p, inside), dict(wit, host=p))
+                return
+        if not ok:
+            return
+        fresh = save_reload(ctx, hk, probes, pool, rng, f2, where, wit)
+        if fresh is None:
+            return
+    if rng.random() < 0.2:
+        hk.clear()
+        ctx.count("clears_judged")
+        if list(hk.keys()) or any(hk.lookup(p) is not None for p in probes) or saved_text(hk, f2) != "":
+            ctx.violation("clear() left entries behind", "keys=%r" % list(hk.keys())[:4], dict(file=text, ops=ops))
+    ctx.case(("delete", text, repr(ops)), sample=dict(kind="delete by position", file=text, ops=ops) if i < 1 else None,
+             nontrivial=bool(ops))
 
 
 def history_scenario(ctx, rng, pool, d, i):
@@ -524,7 +634,7 @@ def history_scenario(ctx, rng, pool, d, i):
             ctx.violation("history: exception from %s: %s" % (ops[-1][0] if ops else "?", exc_signature(e)),
                           repr(e)[:200], wit)
             return
-    ctx.case(("history", repr(ops)), sample=dict(kind="history", ops=ops) if i < 1 else None)
+    ctx.case(("history", repr(ops)), sample=dict(kind="history", ops=ops) if i < 1 and SKIP[0] <= 1 else None)
     ctx.count("histories_run")
     ctx.count("history_operations", len(ops))
     save_reload(ctx, hk, probes, pool, rng, tmp2, "history end", dict(history=ops))
@@ -547,6 +657,7 @@ class AbbrCtx:
 
 
 def run(ctx):
+    SKIP[0] = ctx.shard % 3
     ctx = AbbrCtx(ctx)
     rng = ctx.rng
     pool = key_pool(rng)
@@ -558,6 +669,8 @@ def run(ctx):
             file_scenario(ctx, rng, pool, d, i)
         for i in range(ctx.pick(60, 400)):
             history_scenario(ctx, rng, pool, d, i)
+        for i in range(ctx.pick(150, 900)):
+            delete_scenario(ctx, rng, pool, d, i)
     finally:
         shutil.rmtree(d, ignore_errors=True)
     ctx.require("files_loaded", 300)
@@ -569,6 +682,15 @@ def run(ctx):
     ctx.require("files_with_hashed_names", 150)
     ctx.require("files_with_conflicting_keys", 100)
     ctx.require("histories_run", 120)
+    ctx.require("deletes_judged", 500)
+    ctx.require("deletes_where_first_match_is_entry_0", 120)
+    ctx.require("deletes_where_first_match_is_a_middle_entry", 120)
+    ctx.require("deletes_where_first_match_is_the_last_entry", 80)
+    ctx.require("deletes_by_plain_name_of_a_hashed_entry", 40)
+    ctx.require("deletes_by_hashed_literal", 40)
+    ctx.require("deletes_of_a_host_listed_on_several_entries", 150)
+    ctx.require("entry_lines_with_trailing_fields", 500)
+    ctx.require("entry_lines_with_3_or_more_trailing_fields", 150)
     ctx.require("host_lists_compared", 300)
     ctx.require("host_lists_compared_after_save_reload", 300)
     ctx.require("comment_lines_generated", 400)
